@@ -1161,6 +1161,12 @@ func (db *DB) Control() (err error) {
 	defer db.Unlock()
 
 	for _, s := range db.schemas {
+		// objects which are not written yet are not missing
+		if s.asyncWritesEnabled() {
+			if err = db.flushAll(s.object); err != nil {
+				return
+			}
+		}
 		if err = s.control(); err != nil {
 			return
 		}
@@ -1245,6 +1251,13 @@ func (db *DB) Repair(of Object) (err error) {
 	// we get schema
 	if s, err = db.schema(of); err != nil && !errors.Is(err, ErrIndexCorrupted) {
 		return
+	}
+
+	// objects which are not written yet are not missing
+	if s.asyncWritesEnabled() {
+		if err = db.flushAll(of); err != nil {
+			return
+		}
 	}
 
 	// we re-index missing objects in index
